@@ -211,7 +211,7 @@ func (fr *Frame) evalCall0(st *State, call *ast.CallExpr, nWant int) []*Term {
 			}
 			return rs
 		}
-		if fi := e.funcs[key]; fi != nil && !externalPkgs[pkgPath] {
+		if fi := e.funcs[key]; fi != nil && (!externalPkgs[pkgPath] || (fr.fn != nil && fr.fn.Pkg != nil && fr.fn.Pkg.PkgPath == pkgPath)) { // (glue packages are inlined only from their own functions)
 			if fc := e.cs.Funcs[key]; fc != nil && fc.Options["inline"] == "" {
 				// recursive call of the function under verification: use its contract
 				return fr.applyContract(st, fc, fn, sig, recv, args, call)
